@@ -24,6 +24,7 @@ type Label struct {
 	Min  int    `json:"min,omitempty"`
 	T    int    `json:"t,omitempty"`
 	V    int    `json:"v,omitempty"`
+	Pre  bool   `json:"pre,omitempty"`  // Bcast: the caller put the set into the pool before the wallet broadcasts it
 	K    int    `json:"k,omitempty"`    // Lag: blocks the store falls behind
 	Fork int    `json:"fork,omitempty"` // Lag: of which a reorg abandons this many indexed (empty) blocks first
 	Fpb  int    `json:"fpb,omitempty"`  // fee per byte for Redistribute (0 in the model-checked graph)
@@ -196,7 +197,7 @@ func (r *run) exec(a Label) (e ev, enabled bool, err error) {
 		if t == nil || !wd.canBroadcast(t) {
 			return nil, false, nil
 		}
-		e = wd.broadcast(t)
+		e = wd.broadcast(t, a.Pre)
 	case "Tick":
 		wd.tick()
 		e = ev{"op": "Tick"}
@@ -681,7 +682,7 @@ func driveRandom(r *run, rng *rand.Rand, outs []Out, prelude []Label, tag string
 			}
 		case x < 66:
 			if t := r.pickTx(rng, func(t *txrec) bool { return wd.canBroadcast(t) }); t != nil {
-				a = Label{Op: "Bcast", T: t.tid}
+				a = Label{Op: "Bcast", T: t.tid, Pre: t.ver == 2 && rng.Intn(3) == 0}
 			} else {
 				continue
 			}
